@@ -132,6 +132,9 @@ def RandomKXOR(k, n, m, seed=None, planted_assignments=None, formula_class=CNF):
 
     if planted_assignments is None:
         planted_assignments = []
+    else:
+        # any iterable is accepted, and it is scanned once per candidate
+        planted_assignments = list(planted_assignments)
 
     if k > n:
         raise ValueError("clauses width is {}, and we only have {} variables".format(k,n))
